@@ -379,8 +379,11 @@ func runC18Stack(c C18Case) (st Stats, err error) {
 				}
 			case "aux":
 				switch step.Mode {
-				case 0:
+				case 0, 3:
 					a := stackage.Auxiliary{"k": i}
+					if step.Mode == 3 {
+						a = stackage.Auxiliary{} // allocated but still empty: it is the caller's map all the same
+					}
 					if !ro {
 						userAux, auxIsUser = a, true
 					}
@@ -487,6 +490,8 @@ func runC18Stack(c C18Case) (st Stats, err error) {
 
 func runC18Cond(c C18Case) (st Stats, err error) {
 	var cd stackage.Condition
+	var userAux stackage.Auxiliary
+	auxIsUser := false
 	bits := 0
 	var enc [][]string
 	id, cat := "", ""
@@ -528,6 +533,19 @@ func runC18Cond(c C18Case) (st Stats, err error) {
 			if cd.ID() != id || cd.Category() != cat {
 				v = violf("cond/ID", "%s: ID=%q Category=%q, model %q %q", where, cd.ID(), cd.Category(), id, cat)
 				return
+			}
+			if auxIsUser {
+				if reflect.ValueOf(cd.Auxiliary()).Pointer() != reflect.ValueOf(userAux).Pointer() {
+					v = violf("cond/Auxiliary", "%s: Auxiliary() is not the map that was set", where)
+					return
+				}
+				// a write through the caller's map must be visible through the getter
+				userAux["probe"] = where
+				if got, _ := cd.Auxiliary().Get("probe"); got != where {
+					v = violf("cond/Auxiliary", "%s: a value stored in the caller's map is not seen through Auxiliary()", where)
+					return
+				}
+				delete(userAux, "probe")
 			}
 			if got := cd.LogLevels(); got != logLevelsString(logbits) {
 				v = violf("cond/LogLevels", "%s: LogLevels()=%q, model %q", where, got, logLevelsString(logbits))
@@ -607,6 +625,35 @@ func runC18Cond(c C18Case) (st Stats, err error) {
 					}
 					cd.SetEncap(append([]string{}, step.SS...))
 				}
+			case "aux":
+				cls = "Cond.SetAuxiliary"
+				switch step.Mode {
+				case 0, 3:
+					a := stackage.Auxiliary{"k": i}
+					if step.Mode == 3 {
+						a = stackage.Auxiliary{}
+					}
+					if !ro {
+						userAux, auxIsUser = a, true
+					}
+					cd.SetAuxiliary(a)
+				case 1:
+					if !ro {
+						auxIsUser = false
+					}
+					cd.SetAuxiliary(nil)
+				default:
+					if !ro {
+						auxIsUser = false
+					}
+					cd.SetAuxiliary()
+				}
+				if !auxIsUser && !ro {
+					if a := cd.Auxiliary(); a == nil || a.Len() != 0 {
+						panic(fmt.Sprintf("SetAuxiliary(nil/none) left %v, want a fresh empty map", a))
+					}
+				}
+				st.Class("cond-aux")
 			case "loglevel", "unloglevel":
 				var args []any
 				set := step.Op == "loglevel"
@@ -798,7 +845,7 @@ func genC18(t *rapid.T, tier Tier) C18Case {
 	if rapid.IntRange(0, 4).Draw(t, "cond") == 0 {
 		c.Target = "cond"
 		setters = triStateSetters(condMethods)
-		ops = []string{"tri", "tri", "tri", "id", "cat", "encap", "loglevel", "unloglevel"}
+		ops = []string{"tri", "tri", "tri", "id", "cat", "encap", "aux", "loglevel", "unloglevel"}
 	}
 	if rapid.IntRange(0, 2).Draw(t, "clearro") > 0 {
 		c.Init &^= bRO
@@ -842,7 +889,7 @@ func genC18(t *rapid.T, tier Tier) C18Case {
 				s.Mode = 1
 			}
 		case "aux":
-			s.Mode = rapid.IntRange(0, 2).Draw(t, "auxform")
+			s.Mode = rapid.IntRange(0, 3).Draw(t, "auxform")
 		case "loglevel", "unloglevel":
 			s.SS = genLogArgs(t)
 			if s.SS == nil {
@@ -861,7 +908,7 @@ func init() {
 		ID: "C18",
 		Rule: "exhaustive: from each of the 256 initial option states (8 options set through their setters) on a LIST and an AND stack with fixed probe content: every {set,clear,toggle} of every reflected tri-state setter (deprecated aliases included), every length-2 sequence over the 8 canonical setters x 3 modes (quick: on the AND stack from every 8th state only), " +
 			"and every length-3 sequence from the zero/single-bit/all states (thorough: from all 256); Conditions: all sequences up to length 2 (thorough 3) over their reflected tri-state setters from 16 initial states. " +
-			"rapid: sequences of 5..40 steps mixing those with SetID, SetCategory, SetDelimiter (string/rune/nil), SetSymbol (strings/runes/none), SetEncap (string, 1- and 2-element slices, clashes, no argument), SetAuxiliary (map/nil/none), SetLogLevel/UnsetLogLevel (names in any case, constants, raw ints, none/all), SetFIFO(true/false), Push/Pop. " +
+			"rapid: sequences of 5..40 steps mixing those with SetID, SetCategory, SetDelimiter (string/rune/nil), SetSymbol (strings/runes/none), SetEncap (string, 1- and 2-element slices, clashes, no argument), SetAuxiliary (populated map/empty map/nil/none, on Stacks and Conditions; identity and write-through), SetLogLevel/UnsetLogLevel (names in any case, constants, raw ints, none/all), SetFIFO(true/false), Push/Pop. " +
 			"Oracle after every step: raw option bits (VerifDump) == record model gated by read-only; getters IsParen/IsPadded/IsReadOnly/CanNest/IsEncap/IsFIFO; ID/Category/Delimiter/LogLevels/Auxiliary identity; content unchanged; String() == canonical rendering under the model's options; Index(-1)/Index(Len+5) behave per the index bits. " +
 			"non-trivial = sequence touches >=2 different options with >=1 toggle, or uses a string-valued setter on the kind that must ignore it; distinct = distinct case JSON",
 		Gen:      genC18,
